@@ -92,49 +92,69 @@ def evenPos : List (List Nat) := [[1, 1, 2, 2], [2, 2, 1, 1]]
 /-- insertion sort of `(index, op)` pairs by index (indices are distinct here) -/
 def sortPairs (l : List (Nat × Nat)) : List (Nat × Nat) := sortF l
 
-def jwTwoBody (p q r s : Nat) (c : GQ) : Op :=
+/-- coefficient of the string `ops` in the four-distinct-indices branch -/
+def coeff4 (c : GQ) (ops : List Nat) : Rat :=
+  if countX ops % 2 != 0 then
+    let x := mkRat 1 8 * c.im
+    if oddNeg.contains ops then x * (-1) else x
+  else
+    let x := mkRat 1 8 * c.re
+    if !(evenPos.contains ops) then x * (-1) else x
+
+/-- "Sort operators" + "Compute operator strings" of the four-distinct-indices branch -/
+def term4 (p q r s : Nat) (ops : List Nat) : Option Term :=
+  match sortPairs ([p, q, r, s].zip ops) with
+  | [(a, oa), (b, ob), (c', oc), (d, od)] =>
+    some ([(a, oa)] ++ zs (a + 1) b ++ [(b, ob)] ++ [(c', oc)] ++ zs (c' + 1) d ++ [(d, od)])
+  | _ => none
+
+/-- "Identify equal tensor factors" of the three-distinct-indices branch: `(a, b, coefficient, c)` -/
+def case3 (p q r s : Nat) (c : GQ) : Nat × Nat × GQ × Nat :=
+  if p == r then
+    (if q > s then (s, q, -(c.conj), p) else (q, s, -c, p))
+  else if p == s then
+    (if q > r then (r, q, c.conj, p) else (q, r, c, p))
+  else if q == r then
+    (if p > s then (s, p, c.conj, q) else (p, s, c, q))
+  else
+    (if p > r then (r, p, -(c.conj), q) else (p, r, -c, q))
+
+/-- the sequence of operands that `jordan_wigner_two_body` adds (`true`: `+=`) or subtracts (`false`: `-=`)
+to the initially empty `qubit_operator`, in program order -/
+def twoBodyOps (p q r s : Nat) (c : GQ) : List (Bool × Op) :=
   if p == q || r == s then []
   else
     let k := nDistinct [p, q, r, s]
     if k == 4 then
       let c := if (decide (p > q)) != (decide (r > s)) then c * (rl (-1)) else c
-      xy4.foldl (fun acc ops =>
-        let coeff : Rat :=
-          if countX ops % 2 != 0 then
-            let x := mkRat 1 8 * c.im
-            if oddNeg.contains ops then x * (-1) else x
-          else
-            let x := mkRat 1 8 * c.re
-            if !(evenPos.contains ops) then x * (-1) else x
-        if coeff == 0 then acc else
-        match sortPairs ([p, q, r, s].zip ops) with
-        | [(a, oa), (b, ob), (c', oc), (d, od)] =>
-          let operators := [(a, oa)] ++ zs (a + 1) b ++ [(b, ob)] ++ [(c', oc)] ++ zs (c' + 1) d ++ [(d, od)]
-          iadd tol acc (mk .qubit operators (rl coeff))
-        | _ => acc) []
+      xy4.filterMap fun ops =>
+        let coeff := coeff4 c ops
+        if coeff == 0 then none else
+        match term4 p q r s ops with
+        | some operators => some (true, mk .qubit operators (rl coeff))
+        | none => none
     else if k == 3 then
-      let (a, b, c, z) : Nat × Nat × GQ × Nat :=
-        if p == r then
-          (if q > s then (s, q, -(c.conj), p) else (q, s, -c, p))
-        else if p == s then
-          (if q > r then (r, q, c.conj, p) else (q, r, c, p))
-        else if q == r then
-          (if p > s then (s, p, c.conj, q) else (p, s, c, q))
-        else
-          (if p > r then (r, p, -(c.conj), q) else (p, r, -c, q))
+      let abcz := case3 p q r s c
+      let a := abcz.1
+      let b := abcz.2.1
+      let c := abcz.2.2.1
+      let z := abcz.2.2.2
       let ps := zs (a + 1) b
       let pauliZ := mk .qubit [(z, 3)] 1
-      (hopList c).foldl (fun acc (x, oa, ob) =>
-        if x == 0 then acc else
+      (hopList c).flatMap fun (x, oa, ob) =>
+        if x == 0 then [] else
         let hop := mk .qubit ([(a, oa)] ++ ps ++ [(b, ob)]) (rl (x / 4))
-        let acc := isub tol acc (mulOp .qubit pauliZ hop)
-        iadd tol acc hop) []
+        [(false, mulOp .qubit pauliZ hop), (true, hop)]
     else
       let coeff := if p == s then rl (-(mkRat 1 4)) * c else rl (mkRat 1 4) * c
-      let r0 := isub tol [] (mk .qubit [] coeff)
-      let r1 := iadd tol r0 (mk .qubit [(p, 3)] coeff)
-      let r2 := iadd tol r1 (mk .qubit [(q, 3)] coeff)
-      isub tol r2 (mk .qubit [(min q p, 3), (max q p, 3)] coeff)
+      [(false, mk .qubit [] coeff), (true, mk .qubit [(p, 3)] coeff), (true, mk .qubit [(q, 3)] coeff),
+       (false, mk .qubit [(min q p, 3), (max q p, 3)] coeff)]
+
+/-- run a sequence of `+=` / `-=` on an initially empty operator -/
+def foldSigned (ops : List (Bool × Op)) : Op :=
+  ops.foldl (fun acc so => if so.1 then iadd tol acc so.2 else isub tol acc so.2) []
+
+def jwTwoBody (p q r s : Nat) (c : GQ) : Op := foldSigned tol (twoBodyOps p q r s c)
 
 /-! ### `_jordan_wigner_interaction_op` -/
 
@@ -271,6 +291,11 @@ def oneBodyImgs (p q : Nat) (c : GQ) : List Op :=
     [mk .qubit [] (half * c), mk .qubit [(p, 3)] (rl (-(mkRat 1 2)) * c)]
 
 def jwOneBodyOk (tol : Rat) (p q : Nat) (c : GQ) : Bool := sumOk tol (oneBodyImgs p q c)
+
+/-- `a -= b` is `a += (-b)` for the purpose of the exact-regime check -/
+def plain (so : Bool × Op) : Op := if so.1 then so.2 else so.2.map fun tc => (tc.1, -tc.2)
+
+def jwTwoBodyOk (tol : Rat) (p q r s : Nat) (c : GQ) : Bool := sumOk tol ((twoBodyOps p q r s c).map plain)
 
 end C04
 end Model
